@@ -128,6 +128,77 @@ def classify_end(recs):
     return None
 
 
+def serial_stage(work, rep, ev, tier):
+    """spec/PoolSerial.tla: the serial implementation of the same interface at list-pointer granularity; every call sequence TLC enumerates
+    is replayed on the real threadpool_serial.c (ASan), call results compared one by one."""
+    import bpbind
+    M = 7 if tier == "quick" else 10
+    C = {"MaxOps": M, "Nodes": set(range(1, M + 1)), "FailItems": {0, 1, 2, 3}, "RecycledKeepsNext": False, "LastNotReset": False, "Emit": False}
+    INV = ["ListsSound", "QueueIsAbstract", "FifoOnce", "NullOnlyWhenEmpty", "StatusReported", "HeapEnough"]
+    cfg = work + "/ps.cfg"
+    write_cfg(cfg, spec="Spec", constants=C, invariants=INV, deadlock=False)
+    r = run_tlc("PoolSerial", cfg, workers=8, timeout=1500, heap="8g")
+    ev.tlc(r, "PoolSerial MaxOps=%d" % M)
+    if not r["ok"]:
+        print("MODEL-FAILURE: PoolSerial violates %s" % r["violated"])
+        return None
+    for dev in ("RecycledKeepsNext", "LastNotReset"):
+        write_cfg(cfg, spec="Spec", constants=dict(C, **{dev: True}), invariants=INV, deadlock=False)
+        r = run_tlc("PoolSerial", cfg, workers=4, timeout=600)
+        ev.tlc(r, "dev PoolSerial " + dev)
+        if not r["violated"]:
+            print("SELF-CHECK-FAILED: PoolSerial deviation %s without counterexample" % dev)
+            return None
+    write_cfg(cfg, spec="Spec", constants=dict(C, Emit=True), invariants=INV + ["EmitOK"], deadlock=False)
+    r = run_tlc("PoolSerial", cfg, workers=8, timeout=1500, heap="8g")
+    cases = bpbind.parse_emitted(r["out"])
+    if len(cases) != 4 * 2 ** M:
+        print("SELF-CHECK-FAILED: PoolSerial emitted %d call sequences, expected %d" % (len(cases), 4 * 2 ** M))
+        return None
+    binp = work + "/replay_poolserial"
+    if not build.compile_harness(VERIF + "/harness/replay_poolserial.c", binp, variant="asan"):
+        raise RuntimeError("harness build failed")
+
+    def do(i):
+        c = cases[i]
+        prog = "".join(e[0] for e in c["log"])
+        try:
+            q = subprocess.run([binp, str(c["failing"]), prog], capture_output=True, text=True, timeout=60,
+                               env=dict(os.environ, ASAN_OPTIONS="detect_leaks=1"))
+            return i, prog, q.returncode, q.stdout, q.stderr
+        except subprocess.TimeoutExpired as e:
+            return i, prog, 124, "", "timeout"
+    n, seen = 0, set()
+    from concurrent.futures import ThreadPoolExecutor
+    with ThreadPoolExecutor(16) as ex:
+        for i, prog, rc, out, err in ex.map(do, range(len(cases))):
+            n += 1
+            c = cases[i]
+            what = None
+            if "ERROR: AddressSanitizer" in err:
+                what = ("serial-memory-error", "memory error (%s)" % err[err.find("ERROR: AddressSanitizer"):][:120])
+            elif "LeakSanitizer" in err:
+                what = ("serial-leak", "nodes leaked at destroy")
+            elif rc in (3, 124) or "HANG" in out:
+                what = ("serial-hang", "a call never returns")
+            elif rc != 0:
+                what = ("serial-crash", "exit status %d %s" % (rc, err[-100:]))
+            else:
+                real = json.loads(out.strip().split("\n")[-1])
+                want = [[e[0], int(e[1]), int(e[2])] for e in c["log"]]
+                if real["log"] != want:
+                    k = next(j for j in range(len(want)) if real["log"][j] != want[j])
+                    what = ("serial-fifo-once", "call %d (%s) answers %s, the specification %s" % (k + 1, prog[k], real["log"][k][1:], want[k][1:]))
+                elif real["status"] != c["status"]:
+                    what = ("serial-status", "status %d, the specification %d" % (real["status"], c["status"]))
+            if what and what[0] not in seen:
+                seen.add(what[0])
+                rep.violation(what[0], "serial pool, failing item %d, calls %s: %s" % (c["failing"], prog, what[1]),
+                              data={"failing": c["failing"], "prog": prog, "serial": True})
+    ev.set("serial_pool_call_sequences_replayed", n)
+    return n
+
+
 def run(tier):
     ev = Evidence(PID, tier, "model_checking")
     rep = Reporter(PID, ev)
@@ -422,6 +493,11 @@ def run(tier):
         ev.write()
         return 2
     ev.set("random_schedules", nrand)
+    sn = serial_stage(work, rep, ev, tier)
+    if sn is None:
+        ev.write()
+        return 2
+    replays += sn
     ev.set("random_schedules_cut_by_step_bound", unfinished)
     ev.set("traces_validated_against_impl", replays)
     ev.assumptions += ["pthread primitives behave as POSIX specifies (they are replaced by the controlled scheduler)",
@@ -438,6 +514,14 @@ def replay(path):
     work = scratch("c09r")
     binp, drift = build_harness(work + "/h")
     d = json.load(open(path))
+    if (d.get("data") or {}).get("serial"):
+        b2 = work + "/replay_poolserial"
+        if not build.compile_harness(VERIF + "/harness/replay_poolserial.c", b2, variant="asan"):
+            return 2
+        q = subprocess.run([b2, str(d["data"]["failing"]), d["data"]["prog"]], capture_output=True, text=True, timeout=60)
+        print(q.stdout[-500:], q.stderr[-800:])
+        print("VIOLATION property=%s replay=%s  (compare with the log in the replay file)" % (PID, path) if q.returncode else "harness exit 0: compare the log above with spec/PoolSerial.tla")
+        return 1 if q.returncode else 0
     p = d.get("artefact")
     if not p or not os.path.exists(p):
         p = work + "/s.txt"
